@@ -151,4 +151,20 @@ VARIANTS = [
      "old": "            if not resend_info.tries_left:\n", "new": "            if resend_info.tries_left <= 0:\n"},
     {"name": "X R5 retry budget off by one", "file": BC, "expect": "miss",
      "old": "    tries_left: int = 10\n", "new": "    tries_left: int = 11\n"},
+    # ------------------------------------------------------------------ strengthening round
+    {"name": "R5 cadence compares the .seconds component of the elapsed time", "file": BC, "expect": "C19.R5",
+     "old": "            if dt.datetime.now() - resend_info.last_resent < dt.timedelta(seconds=self.resend_every):\n",
+     "new": "            waited = (dt.datetime.now() - resend_info.last_resent).seconds\n"
+            "            if waited < self.resend_every:\n"},
+    {"name": "P R5 cadence through total_seconds()", "file": BC, "expect": "silent",
+     "old": "            if dt.datetime.now() - resend_info.last_resent < dt.timedelta(seconds=self.resend_every):\n",
+     "new": "            if (dt.datetime.now() - resend_info.last_resent).total_seconds() < self.resend_every:\n"},
+    {"name": "R6 notify walks the live subscriber list through an alias", "file": "hippolyzer/lib/base/events.py", "expect": "C19.R6",
+     "old": "        for handler in self.subscribers[:]:\n",
+     "new": "        subs = self.subscribers\n        for handler in subs:\n"},
+    {"name": "P R6 snapshot spelled list()", "file": "hippolyzer/lib/base/events.py", "expect": "silent",
+     "old": "        for handler in self.subscribers[:]:\n", "new": "        for handler in list(self.subscribers):\n"},
+    {"name": "P R6 snapshot through a local tuple", "file": "hippolyzer/lib/base/events.py", "expect": "silent",
+     "old": "        for handler in self.subscribers[:]:\n",
+     "new": "        current = tuple(self.subscribers)\n        for handler in current:\n"},
 ]
